@@ -75,8 +75,9 @@ func (c *Conn) handleSearch(tag string, dec *imapwire.Decoder, numKind NumKind) 
 		return err
 	}
 
-	// If no return option is specified, ALL is assumed
-	if !options.ReturnMin && !options.ReturnMax && !options.ReturnAll && !options.ReturnCount {
+	// If no return option is specified, ALL is assumed. SAVE on its own asks
+	// for the result to be saved only, see RFC 5182 section 2.1
+	if !options.ReturnMin && !options.ReturnMax && !options.ReturnAll && !options.ReturnCount && !options.ReturnSave {
 		options.ReturnAll = true
 	}
 
